@@ -267,6 +267,21 @@ func init() {
 						}
 					}
 				}
+				// bounds and probes over the combinations of the grammar's optional parts (epoch,
+				// pre / post, revision, build): a bound that lacks a part against a probe that carries it
+				if ph := rangeSafe(eco, phaseTemplates(eco, "quick")); len(ph) > 0 {
+					npp := 4
+					if tier == "thorough" {
+						npp = 12
+					}
+					for _, op := range spec.ops {
+						for _, b := range thin(ph, npp) {
+							for _, p := range thin(phaseTemplates(eco, "quick"), npp) {
+								out = append(out, &Config{ID: fmt.Sprintf("C02/cmp1/%s/%s/parts/%s|%s", eco, op, b, p), Pkg: zzhPkg, Func: "C02Cmp1", Args: []ArgSpec{ArgStr(eco), ArgStr(op), ArgTmpl(b), ArgTmpl(p)}})
+							}
+						}
+					}
+				}
 				n2 := 3
 				if tier == "thorough" {
 					n2 = 5
